@@ -377,7 +377,7 @@ def build(unit_path, repo=None, extra_tail=''):
             continue
         # function
         header = None
-        if len(segs) > 1:
+        if len(segs) > 1 or it.as_header:
             header = it.as_header or segs[0]
             # drop auto-trait bounds in trait headers etc. via rules on header text
             header, _ = R.apply_rules([r for r in rule_names if r in ('R1', 'R3')], header, ctx)
